@@ -922,10 +922,12 @@ fn op_response_headers(case: &Value) -> Value {
         }
     };
     let body = dropshot::HttpResponseOk(7u32);
+    // the values of the declared headers: "declared-<i>" unless given
+    let dval = |i: usize| -> String { case["declared_values"][i].as_str().map(|s| s.to_string()).unwrap_or_else(|| format!("declared-{}", i)) };
     let r = match declared.len() {
         0 => { let mut h = dropshot::HttpResponseHeaders::new(body, Declared0 {}); add(h.headers_mut()); h.to_result() }
-        1 => { let mut h = dropshot::HttpResponseHeaders::new(body, Declared1 { a: "declared-0".into() }); add(h.headers_mut()); h.to_result() }
-        _ => { let mut h = dropshot::HttpResponseHeaders::new(body, Declared2 { a: "declared-0".into(), b: "declared-1".into() }); add(h.headers_mut()); h.to_result() }
+        1 => { let mut h = dropshot::HttpResponseHeaders::new(body, Declared1 { a: dval(0) }); add(h.headers_mut()); h.to_result() }
+        _ => { let mut h = dropshot::HttpResponseHeaders::new(body, Declared2 { a: dval(0), b: dval(1) }); add(h.headers_mut()); h.to_result() }
     };
     match r {
         Err(e) => json!({"as_specified": false, "error": e.status_code.as_u16()}),
@@ -933,7 +935,7 @@ fn op_response_headers(case: &Value) -> Value {
             let (status, hs, _) = collect_body(resp);
             let mut want: Vec<(String, String)> = vec![];
             for (i, n) in declared.iter().enumerate() {
-                if !explicit.contains(n) { want.push((n.clone(), format!("declared-{}", i))); }
+                if !explicit.contains(n) { want.push((n.clone(), dval(i))); }
             }
             for (i, n) in explicit.iter().enumerate() { want.push((n.clone(), format!("explicit-{}", i))); }
             let mut got: Vec<(String, String)> = hs.iter().filter(|(k, _)| k != "content-type").cloned().collect();
